@@ -15,8 +15,13 @@ parser.  The theorems hold for EVERY parser `parse` that reports, for the (at mo
 texts it is actually asked about, the layout `layoutOf` says the rendering has – that
 CPython/asttokens is such a parser is what the correspondence check compares.
 
+Documentation texts are arbitrary character lists: `quote_docstring_faithful` (every string
+reads back) and `doc_inert` need no hypothesis on the characters; `lexTriple`/`readBack` is the
+model of CPython's reading of a triple-quoted literal.
+
 What is NOT a theorem: that the captured text, compiled by CPython, behaves like the original
-function (sampled by the check's oracle; known finding `C20-dedent-in-string`).
+function (sampled by the check's oracle; known findings `C20-dedent-in-string`,
+`C20-splitlines-in-body`: the lines of the grammar hold no form feed / U+2028-like character).
 -/
 namespace MxModel.C20
 open MxModel.Capture
@@ -113,28 +118,39 @@ theorem rename_chain_derived_follow (n : Line) (es : List Entry) (i : Nat) (e0 e
 
 /-! ## Documentation -/
 
+/-- **`quote_docstring` is faithful, for every string**: the triple-quoted literal it builds
+(`"""`, the text with backslashes, NUL, line boundaries other than the line feed, every third
+quote of a run and a final quote escaped, `"""`) is read back by CPython's lexer as exactly
+the text – no hypothesis on the text.  (Induction with the run-of-quotes invariant:
+`lex_quoteChars`.) -/
+theorem quote_docstring_faithful (d : List Char) : readBack (quoteDocstring d) = some d :=
+  readBack_quoteDocstring d
+
 /-- `replace_docstring` on the text of a captured definition is `replaceDocS` on the
-structure, for every body shape, old docstring shape, new text and `insert_indents`. -/
-theorem replace_docstring_agrees (parse : Text → Layout) (f : FuncDef) (d : Span) (ii : Bool)
-    (hp : f.pre = []) (h0 : Parses parse f) :
-    replaceDocstring (parse (render f)) (render f) d ii = render (replaceDocS f d ii) := by
-  rw [h0]; exact replaceDocstring_render f hp d ii
+structure, for every body shape (block or one-line, with or without a docstring, the old
+docstring of any shape: one token or several, on one line or several), every new text and
+`insert_indents`. -/
+theorem replace_docstring_agrees (parse : Text → Layout) (f : FuncDef) (doc : List Char)
+    (ii : Bool) (hp : f.pre = []) (h0 : Parses parse f) :
+    replaceDocstring (parse (render f)) (render f) doc ii = render (replaceDocS f doc ii) := by
+  rw [h0]; exact replaceDocstring_render f hp doc ii
 
 /-- `set_doc` as a whole (replace, then re-capture under the cells' name). -/
-theorem set_doc_text_agrees (parse : Text → Layout) (f : FuncDef) (d : Span) (ii : Bool)
+theorem set_doc_text_agrees (parse : Text → Layout) (f : FuncDef) (doc : List Char) (ii : Bool)
     (hwf : f.wf = true) (hp : f.pre = []) (h0 : Parses parse f)
-    (h1 : Parses parse (dedentS (replaceDocS f d ii)))
-    (h2 : Parses parse (undecorate (dedentS (replaceDocS f d ii)))) :
-    setDocText parse (render f) d ii f.name = render (setDocS f d ii) :=
-  setDocText_render parse f d ii hwf hp h0 h1 h2
+    (h1 : Parses parse (dedentS (replaceDocS f doc ii)))
+    (h2 : Parses parse (undecorate (dedentS (replaceDocS f doc ii)))) :
+    setDocText parse (render f) doc ii f.name = render (setDocS f doc ii) :=
+  setDocText_render parse f doc ii hwf hp h0 h1 h2
 
 /-- Replacing the documentation of a captured definition changes nothing but the docstring
-literal: name, signature, parameter names, comments and every line of the body other than
-the literal are the same. -/
-theorem doc_changes_only_docstring (f : FuncDef) (n : Line) (d : Span) (ii : Bool)
+statement: name, signature, parameter names, comments and every line of the body other than
+the literal (and the `;` that ends its statement in a one-line body) are the same – for
+every body shape, every text, with and without `insert_indents`. -/
+theorem doc_changes_only_docstring (f : FuncDef) (n : Line) (doc : List Char) (ii : Bool)
     (hwf : f.wf = true) :
     let g := captureS f (some n)
-    let g' := setDocS g d ii
+    let g' := setDocS g doc ii
     g'.pre = g.pre ∧ g'.lead = g.lead ∧ g'.decos = g.decos ∧ g'.gap = g.gap
       ∧ g'.defkw = g.defkw ∧ g'.name = g.name ∧ g'.sig = g.sig ∧ g'.trail = g.trail
       ∧ g'.pnames = g.pnames ∧ g'.body.undoc = g.body.undoc := by
@@ -143,9 +159,13 @@ theorem doc_changes_only_docstring (f : FuncDef) (n : Line) (d : Span) (ii : Boo
   simp only [setDocS, captureS, withName, undecorate, dedentS, replaceDocS, map_normBlank_idem,
     true_and]
   cases hbody : f.body with
-  | inline doc stmts => cases doc <;> simp [Body.norm, setDocBody, Body.undoc]
-  | block sm cmts ind doc after rest =>
-    cases doc with
+  | inline doc0 stmts =>
+    cases doc0 with
+    | none =>
+      simp [Body.norm, setDocBody, Body.undoc, dropSep, semi, isWs]
+    | some d0 => simp [Body.norm, setDocBody, Body.undoc]
+  | block sm cmts ind doc0 after rest =>
+    cases doc0 with
     | none =>
       rw [hbody] at hb
       simp only [Body.wf, Bool.not_eq_true'] at hb
@@ -155,46 +175,49 @@ theorem doc_changes_only_docstring (f : FuncDef) (n : Line) (d : Span) (ii : Boo
     | some d0 =>
       simp [Body.norm, setDocBody, Body.undoc, Function.comp_def]
 
-/-- the literal `doc = d` writes (without `insert_indents`) -/
-theorem doc_written (f : FuncDef) (n : Line) (d : Span) :
-    (setDocS (captureS f (some n)) d false).body.docLit = some (mkDoc d.norm) := by
+/-- the literal `doc = d` writes (without `insert_indents`): the quoted text, with the
+whitespace-only lines inside it emptied by the `dedent` of the re-capture -/
+theorem doc_written (f : FuncDef) (n : Line) (doc : List Char) :
+    (setDocS (captureS f (some n)) doc false).body.docLit = some (mkDoc (docSpan doc).norm) := by
   simp only [setDocS, captureS, withName, undecorate, dedentS, replaceDocS]
   cases f.body with
-  | inline doc stmts => cases doc <;> simp [Body.norm, setDocBody, Body.docLit, DocLit.norm, mkDoc]
-  | block sm cmts ind doc after rest =>
+  | inline doc0 stmts => cases doc0 <;> simp [Body.norm, setDocBody, Body.docLit, DocLit.norm, mkDoc]
+  | block sm cmts ind doc0 after rest =>
+    generalize docSpan doc = d
     obtain ⟨first, more⟩ := d
-    cases doc <;> cases more <;>
+    cases doc0 <;> cases more <;>
       simp [Body.norm, setDocBody, Body.docLit, DocLit.norm, mkDoc, blockDoc, Span.norm]
 
-/-- **The docstring reads back as the text that was set iff the text is `SafeDoc`**: no
-`"""` inside, no `"` at the end, no backslash, no whitespace-only line in the middle.
-(The text is pasted between `"""` unescaped, and the result is dedented again.) -/
-theorem doc_inert_iff (f : FuncDef) (n : Line) (d : Span) :
-    ((setDocS (captureS f (some n)) d false).body.docLit.bind DocLit.value) = some d
-      ↔ SafeDoc d = true := by
-  rw [doc_written]
-  simp only [Option.bind_some, DocLit.value, mkDoc, and_self, if_true, readBack, SafeDoc,
-    Bool.and_eq_true, beq_iff_eq]
-  constructor
-  · intro h
-    split at h
-    · rename_i hl
-      have e : d.norm = d := by simpa using h
-      rw [e] at hl
-      exact ⟨(lex_safe_iff _).mp hl, e⟩
-    · cases h
-  · rintro ⟨hs, e⟩
-    rw [e, if_pos ((lex_safe_iff _).mpr hs)]
+/-- **`doc = d` is inert**: for EVERY well-formed definition of the grammar (block or one-line
+body, with or without a docstring of any shape) and EVERY text `d` without a whitespace-only
+line strictly inside it – any characters: quotes, runs of quotes, a final quote, backslashes,
+NUL, carriage returns and the other line boundaries –, after `set_doc` the docstring reads
+back as exactly `d` and nothing of the body but the docstring statement has changed.
+(The remaining hypothesis is the known finding `C20-dedent-in-string`: the rebuilt source is
+dedented again, which empties whitespace-only lines also inside the literal.) -/
+theorem doc_inert (f : FuncDef) (n : Line) (doc : List Char) (hwf : f.wf = true)
+    (hclean : NoWsOnlyMiddle doc = true) :
+    (setDocS (captureS f (some n)) doc false).body.undoc = (captureS f (some n)).body.undoc
+      ∧ ((setDocS (captureS f (some n)) doc false).body.docLit.bind DocLit.value) = some doc := by
+  refine ⟨(doc_changes_only_docstring f n doc false hwf).2.2.2.2.2.2.2.2.2, ?_⟩
+  rw [doc_written, docSpan_norm doc hclean]
+  exact value_mkDoc_docSpan doc
 
-/-- the part of the property that holds: for safe texts and bodies where the literal is not
-glued to a statement, `doc = d` changes nothing but the docstring, and the docstring is `d` -/
-theorem doc_inert_partial (f : FuncDef) (n : Line) (d : Span) (hwf : f.wf = true)
-    (hsafe : SafeDoc d = true) :
-    (setDocS (captureS f (some n)) d false).body.undoc = (captureS f (some n)).body.undoc
-      ∧ ((setDocS (captureS f (some n)) d false).body.docLit.bind DocLit.value) = some d :=
-  ⟨(doc_changes_only_docstring f n d false hwf).2.2.2.2.2.2.2.2.2, (doc_inert_iff f n d).mpr hsafe⟩
-
-/-! The full statement fails on the real code, and the model shows it. -/
+/-- the same for the text algorithm: what `set_doc` makes of `formula.source` is the text of a
+definition that differs from the old one in the docstring statement only, and whose docstring
+CPython reads as `d` -/
+theorem doc_inert_text (parse : Text → Layout) (f : FuncDef) (n : Line) (doc : List Char)
+    (hwf : f.wf = true) (hclean : NoWsOnlyMiddle doc = true)
+    (h0 : Parses parse (captureS f (some n)))
+    (h1 : Parses parse (dedentS (replaceDocS (captureS f (some n)) doc false)))
+    (h2 : Parses parse (undecorate (dedentS (replaceDocS (captureS f (some n)) doc false)))) :
+    ∃ g', setDocText parse (render (captureS f (some n))) doc false n = render g'
+      ∧ g'.name = n ∧ g'.defkw = f.defkw ∧ g'.sig = f.sig ∧ g'.pnames = f.pnames
+      ∧ g'.body.undoc = (captureS f (some n)).body.undoc
+      ∧ (g'.body.docLit.bind DocLit.value) = some doc := by
+  refine ⟨setDocS (captureS f (some n)) doc false, ?_, rfl, rfl, rfl, rfl, ?_⟩
+  · exact set_doc_text_agrees parse (captureS f (some n)) doc false (wf_captureS f _ hwf) rfl h0 h1 h2
+  · exact doc_inert f n doc hwf hclean
 
 def s (x : String) : Line := x.toList
 
@@ -203,31 +226,76 @@ def plainDef : FuncDef :=
   { defkw := s "def ", name := s "foo", sig := s "(x):",
     body := .block [] [] (s "    ") none (s "return x") [], pnames := [s "x"] }
 
-/-- a documentation text ending in a quote does not read back (`doc = 'ends with "'`
-raises SyntaxError in modelx) – nor does one containing `"""`, a backslash, or a
-whitespace-only middle line -/
+/-- The statement without the hypothesis still fails on the real code, and the model shows it:
+a whitespace-only line inside the text is emptied (`doc = 'a\n   \nb'` reads back `'a\n\nb'`;
+known finding `C20-dedent-in-string`). -/
 theorem doc_full_statement_fails :
-    ¬ ∀ (f : FuncDef) (n : Line) (d : Span), f.wf = true →
-      ((setDocS (captureS f (some n)) d false).body.docLit.bind DocLit.value) = some d := by
+    ¬ ∀ (f : FuncDef) (n : Line) (doc : List Char), f.wf = true →
+      ((setDocS (captureS f (some n)) doc false).body.docLit.bind DocLit.value) = some doc := by
   intro h
-  have := (doc_inert_iff plainDef (s "foo") ⟨s "ends with \"", none⟩).mp
-    (h plainDef (s "foo") ⟨s "ends with \"", none⟩ (by decide))
+  have := h plainDef (s "foo") (s "a\n   \nb") (by decide)
   revert this
+  decide +kernel
+
+example : ((setDocS (captureS plainDef (s "foo")) (s "a\n   \nb") false).body.docLit.bind DocLit.value)
+    = some (s "a\n\nb") := by decide +kernel
+
+/-! Regression: the texts and layouts that failed before the repairs (2b72506, 35c2f08). -/
+
+/-- what `quote_docstring` writes for the texts that used to break -/
+theorem quote_docstring_regression :
+    quoteDocstring (s "ends with \"") = s "\"\"\"ends with \\\"\"\"\""
+      ∧ quoteDocstring (s "has \"\"\" inside") = s "\"\"\"has \"\"\\\" inside\"\"\""
+      ∧ quoteDocstring (s "back\\nslash") = s "\"\"\"back\\\\nslash\"\"\""
+      ∧ quoteDocstring (s "cr\rhere") = s "\"\"\"cr\\rhere\"\"\""
+      ∧ quoteDocstring ['n', 'u', 'l', Char.ofNat 0, Char.ofNat 0x2028] = s "\"\"\"nul\\x00\\u2028\"\"\""
+      ∧ quoteDocstring (s "\"\"\"\"\"") = s "\"\"\"\"\"\\\"\"\\\"\"\"\"" := by
   decide
 
-theorem doc_unsafe_witnesses :
-    SafeDoc ⟨s "has \"\"\" inside", none⟩ = false ∧ SafeDoc ⟨s "back\\nslash", none⟩ = false
-      ∧ SafeDoc ⟨s "a", some ([s "   "], s "b")⟩ = false
-      ∧ SafeDoc ⟨s "fine: \"quoted\" text", some ([s "", s "  indented"], s "")⟩ = true := by
+/-- …and they read back: instances of `doc_inert` (all of them violated `SafeDoc` of the
+former partial theorem) -/
+theorem doc_regression_texts :
+    ∀ doc ∈ [s "ends with \"", s "has \"\"\" inside", s "back\\nslash", s "trailing\\",
+              s "cr\rhere", s "\"\"\"", s "a\n\"", ['n', 'u', 'l', Char.ofNat 0]],
+      ((setDocS (captureS plainDef (s "foo")) doc false).body.docLit.bind DocLit.value) = some doc := by
+  intro doc hd
+  refine (doc_inert plainDef (s "foo") doc (by decide) ?_).2
+  revert doc; decide
+
+/-- `def f(x): return x` -/
+def oneLineDef : FuncDef :=
+  { defkw := s "def ", name := s "f", sig := s "(x): ", body := .inline none (s "return x") }
+
+/-- a one-line body without a docstring: a `; ` separates the new literal from the statement
+(formerly `def f(x): """doc"""return x`, SyntaxError) -/
+theorem doc_one_line_body :
+    render (replaceDocS oneLineDef (s "doc") false) = [s "def f(x): \"\"\"doc\"\"\"; return x"]
+      ∧ (setDocS oneLineDef (s "doc") false).body.undoc = oneLineDef.body.undoc
+      ∧ replaceDocstring (layoutOf oneLineDef) (render oneLineDef) (s "doc") false
+          = [s "def f(x): \"\"\"doc\"\"\"; return x"] := by
   decide
 
-/-- a one-line body without a docstring: `set_doc` glues the literal to the statement
-(`def f(x): """doc"""return x`), which is not a statement list (SyntaxError in modelx) -/
-theorem doc_one_line_body_breaks :
-    ∃ (f : FuncDef), f.wf = true ∧ setDocCompiles f = false
-      ∧ render (replaceDocS f ⟨s "doc", none⟩ false) = [s "def f(x): \"\"\"doc\"\"\"return x"] :=
-  ⟨{ defkw := s "def ", name := s "f", sig := s "(x): ", body := .inline none (s "return x") },
-    by decide, by decide, by decide⟩
+/-- `def f(x):` / `    'a' 'b'  # c` / `    return x` – a docstring of two tokens (the grammar's
+literal is whatever stands between the first and the last character of the statement) -/
+def concatDocDef : FuncDef :=
+  { defkw := s "def ", name := s "f", sig := s "(x):",
+    body := .block [] [] (s "    ") (some { opn := s "'", txt := ⟨s "a' 'b", none⟩, cls := s "'" })
+      (s "  # c") [s "    return x"] }
+
+/-- `def f(x):` / `    ('a'` / `  'b')` / `    return x` -/
+def parenDocDef : FuncDef :=
+  { defkw := s "def ", name := s "f", sig := s "(x):",
+    body := .block [] [] (s "    ") (some { opn := s "('", txt := ⟨s "a'", some ([], s "  'b")⟩, cls := s "')" })
+      [] [s "    return x"] }
+
+/-- a docstring written as several tokens is replaced as a whole (formerly only its first
+token: `'a' 'b'` kept its tail, `('a')` lost its parenthesis) -/
+theorem doc_compound_literal :
+    replaceDocstring (layoutOf concatDocDef) (render concatDocDef) (s "doc") false
+        = [s "def f(x):", s "    \"\"\"doc\"\"\"  # c", s "    return x"]
+      ∧ replaceDocstring (layoutOf parenDocDef) (render parenDocDef) (s "doc") false
+        = [s "def f(x):", s "    \"\"\"doc\"\"\"", s "    return x"] := by
+  decide
 
 /-! ## Lambda expressions -/
 
@@ -299,18 +367,46 @@ example : captureText demoParse (render demo) (some (s "bar")) = render (capture
   capture_text_agrees demoParse demo _ (by decide) (by unfold Parses; decide +kernel)
     (by unfold Parses; decide +kernel)
 
-example : setDocText (fun t => if t = render (captureS demo (some (s "bar"))) then layoutOf (captureS demo (some (s "bar")))
-      else layoutOf (setDocS (captureS demo (some (s "bar"))) ⟨s "new", some ([s "  "], s "text")⟩ true))
-    (render (captureS demo (some (s "bar")))) ⟨s "new", some ([s "  "], s "text")⟩ true (s "bar") =
+/-- `set_doc` with `insert_indents` on the demo layout; the text has a whitespace-only line, a
+backslash, a run of four quotes and a final quote -/
+def demoDoc : List Char := s "new\n  \ntext \\ \"\"\"\" end\""
+
+def demoDocParse (t : Text) : Layout :=
+  if t = render (captureS demo (some (s "bar"))) then layoutOf (captureS demo (some (s "bar")))
+  else layoutOf (setDocS (captureS demo (some (s "bar"))) demoDoc true)
+
+example : setDocText demoDocParse (render (captureS demo (some (s "bar")))) demoDoc true (s "bar") =
     [s "# lead", s "",
      s "",
      s "def  bar(x, y: int = 2) -> int:  # sig",
      s "    # before",
-     s "    \"\"\"new", s "", s "    text\"\"\"  # after",
+     s "    \"\"\"new", s "", s "    text \\\\ \"\"\\\"\" end\\\"\"\"\"  # after",
      s "    @inner_deco", s "    def g(v):", s "        return v + 1", s "",
      s "    return g(x) + y  # done",
      s "    # trailing", s "# at def level"] := by
   decide +kernel
+
+example : setDocText demoDocParse (render (captureS demo (some (s "bar")))) demoDoc true (s "bar")
+    = render (setDocS (captureS demo (some (s "bar"))) demoDoc true) :=
+  set_doc_text_agrees demoDocParse _ demoDoc true (by decide) rfl (by unfold Parses; decide +kernel)
+    (by unfold Parses; decide +kernel) (by unfold Parses; decide +kernel)
+
+example : replaceDocstring (demoDocParse (render (captureS demo (some (s "bar")))))
+      (render (captureS demo (some (s "bar")))) demoDoc true
+    = render (replaceDocS (captureS demo (some (s "bar"))) demoDoc true) :=
+  replace_docstring_agrees demoDocParse _ demoDoc true rfl (by unfold Parses; decide +kernel)
+
+example : quoteDocstring demoDoc = s "\"\"\"new\n  \ntext \\\\ \"\"\\\"\" end\\\"\"\"\""
+    ∧ readBack (quoteDocstring demoDoc) = some demoDoc :=
+  ⟨by decide, quote_docstring_faithful _⟩
+
+example : (setDocS (captureS demo (some (s "bar"))) demoDoc true).body.undoc
+    = (captureS demo (some (s "bar"))).body.undoc :=
+  (doc_changes_only_docstring demo (s "bar") demoDoc true (by decide)).2.2.2.2.2.2.2.2.2
+
+example : (setDocS (captureS demo (some (s "bar"))) (s "x") false).body.docLit
+    = some (mkDoc ⟨s "x", none⟩) := by
+  rw [doc_written]; decide
 
 /-- rename: only the token after `def` changes -/
 example : captureText (fun _ => layoutOf (captureS demo (some (s "bar"))))
@@ -329,10 +425,26 @@ example : captureText (fun _ => layoutOf (captureS demo (some (s "bar"))))
     (render (captureS demo (some (s "bar")))) (some (s "bar")) = render (captureS demo (some (s "bar"))) := by
   decide +kernel
 
-/-- a safe multi-line documentation text reads back; the body is untouched -/
-example : ((setDocS (captureS demo (some (s "bar"))) ⟨s "Summary.", some ([s "", s "  details"], s "")⟩ false).body.docLit.bind
-    DocLit.value) = some ⟨s "Summary.", some ([s "", s "  details"], s "")⟩ :=
-  (doc_inert_partial demo (s "bar") _ (by decide) (by decide)).2
+/-- a multi-line documentation text full of characters that need escaping reads back; the
+body is untouched -/
+def demoDoc2 : List Char := s "Summary \"quoted\".\n\n  details: \\n is not a newline\r\n\"\"\""
+
+example : NoWsOnlyMiddle demoDoc2 = true := by decide
+
+example : ((setDocS (captureS demo (some (s "bar"))) demoDoc2 false).body.docLit.bind DocLit.value)
+    = some demoDoc2 :=
+  (doc_inert demo (s "bar") _ (by decide) (by decide)).2
+
+def demoDoc2Parse (t : Text) : Layout :=
+  if t = render (captureS demo (some (s "bar"))) then layoutOf (captureS demo (some (s "bar")))
+  else layoutOf (setDocS (captureS demo (some (s "bar"))) demoDoc2 false)
+
+example : ∃ g', setDocText demoDoc2Parse
+      (render (captureS demo (some (s "bar")))) demoDoc2 false (s "bar") = render g'
+      ∧ (g'.body.docLit.bind DocLit.value) = some demoDoc2 := by
+  obtain ⟨g', h1, _, _, _, _, _, h7⟩ := doc_inert_text demoDoc2Parse demo (s "bar") demoDoc2 (by decide) (by decide)
+    (by unfold Parses; decide +kernel) (by unfold Parses; decide +kernel) (by unfold Parses; decide +kernel)
+  exact ⟨g', h1, h7⟩
 
 /-- `    foo(1, lambda a: (a,` / `       2), 3)  # c` -/
 def demoLam : LamStmt :=
